@@ -36,7 +36,8 @@ META = {
     'assumptions': ['unresolved calls (framework objects) are not checked'],
     'decided': ['D1 call conformance on all resolved edges',
                 'D2 proxy binding roles', 'D3 both acquisition paths; introspection parse state is per '
-                'parse',
+                'parse; an explicitly supplied interface instance is used as '
+                'given',
                 'D4 the links of the call chain: the clauses of C08 '
                 '(pending-call bookkeeping, reply-value convention), C10 '
                 '(one addressed reply, binding, reply packaging) and C14 '
